@@ -233,7 +233,7 @@ def core_mod():
         Sel('struct Closure', inside='process_with_backend'),
         Sel('impl BlockSizeUser for Closure', inside='process_with_backend'),
         Sel('impl BlockCipherEncClosure for Closure', inside='process_with_backend', members='''
-    open spec fn pre_c(&self) -> bool { true }
+    open spec fn pre_c(&self) -> bool { self.f.kpre() }
     #[verifier::prophetic]
     open spec fn post_c(&self, enc: spec_fn(Blk) -> Blk) -> bool {
         self.f.kpost(ctr_ks(enc, %(f)s::wbytes(), %(f)s::big_endian()),
